@@ -12,10 +12,10 @@ import (
 // sliceStore is a minimal persistent KVStore (sorted, copy-on-write slice) used for
 // the high-volume exhaustive replay, where cosmos-db's MemDB (goroutine + channel
 // per iterator) and stacked cachekv layers dominate the run time.  Iterators work on
-// the snapshot taken when they were created.  TestStoreAgreement runs sampled
-// behaviours on both this store and dbadapter(MemDB)+cachekv and requires identical
-// leaves, node dumps and query answers; the recorder (TestRecord) always uses the
-// cosmos stores.
+// the snapshot taken when they were created.  Every 50th replayed behaviour, the
+// sample of behaviours logged for TLC and every recorded history (TestRecord) run on
+// the cosmos-sdk stores (MemDB behind dbadapter, one cachekv branch per mutation)
+// instead, with the same comparisons.
 type entry struct{ k, v []byte }
 
 type sliceStore struct{ es []entry }
